@@ -242,7 +242,7 @@ def check(ctx: Ctx) -> None:
             continue
         for n_ in ast.walk(mod_.tree):
             bypass = (isinstance(n_, ast.Attribute) and n_.attr == "__wrapped__") or \
-                (isinstance(n_, ast.Call) and (dotted(n_.func) or "").split(".")[-1] == "unwrap")
+                (isinstance(n_, ast.Call) and isinstance(n_.func, (ast.Name, ast.Attribute)) and model.resolve_expr(mod_, n_.func) == "ext:inspect.unwrap")
             if bypass:
                 ctx.ob("C11.only", f"{mod_.name}::unwrap::{norm(n_, 50)}", False,
                        f"{mod_.name} reaches behind a decorator ({norm(n_, 80)}): a caller that obtains the lru_cached parse function itself receives the cache entry, not a copy",
